@@ -1,3 +1,28 @@
+/-
+  SH.Props.C27 — PromQL evaluation matches operator definitions and rewrites preserve results.
+
+  Property: for any series data, aggregation operators (sum, min, max, avg, count, group, stddev, stdvar, quantile, topk,
+  bottomk) with by/without grouping compute their definitions at every timestamp with missing points excluded, and
+  over-time functions compute their definitions over the selected window.  Pushing an aggregation or over-time function
+  down into the storage query (reduction) yields the same result as evaluating it in the engine over the underlying series.
+
+  What is proved (model SH.Model.PromEval, exact arithmetic, `none` = missing point):
+    * aggSum_def / aggMin_def / aggMax_def / aggAvg_def / aggCount_def / aggGroup_def / aggStdVar_def / varOf_nonneg /
+      aggStdDev_sq_partial / aggQuantile_zero: each operator's loop equals its definition over the present points;
+      agg_present_only / aggQuantile_present_only: for EVERY operator the value depends on the column only through its
+      present points (∀ columns, both code variants).
+    * reduce_sum_sound / reduce_count_sound / reduce_min_sound / reduce_max_sound / reduce_avg_sound: what the storage
+      returns for the pooled rows of a group (tsValues.merge, then tsValues.value) equals the engine's aggregate of the
+      per-series storage values, ∀ rows, ∀ steps — the algebraic core of "reduction preserves the result".  PARTIAL: the lift
+      to whole expressions (partition of the events of a bucket by series, grouping keys, exec) is tied by the
+      correspondence and by the harness' reduce-* oracle, not proved.
+    * rule1_closed_form: the side conditions of the over-time rule (Range ≤ step, = step for stddev/stdvar).
+    * moveOneLeft_shape: every cursor move on every time grid moves r by one, keeps l ≤ r and never moves l right.
+      PARTIAL (statement at the end of the file): over_time_is_definition on uniform grids.
+    * aggGroup_repo_violates, aggStdVar_repo_violates, repo_reduction_violates: the pinned tree's behaviour (Cfg.repo)
+      contradicts the property on concrete inputs; Cfg.fixed = fixes/C27-*.diff.
+  topk/bottomk, quantile (q > 0), stddev on non-squares, grouping keys: correspondence + def-* oracle only.
+-/
 import SH.Model.PromEval
 import Mathlib.Algebra.Order.Field.Rat
 import Mathlib.Tactic.Ring
@@ -327,5 +352,241 @@ theorem aggQuantile_zero (col : List Val) : aggQuantile 0 col = (isort (present 
 example : aggQuantile (1/2) [some 10, none, some 30, some 20, none] = some 20 := by decide +kernel
 example : aggQuantile (1/4) [some 10, none, some 30] = some 15 := by decide +kernel
 example : aggQuantile 0 [none, some 5] = some 5 := by decide +kernel
+
+/-! ### reductions: pushing an aggregation down into the pre-aggregating storage
+
+  `per` = for every series of a group, the (merged) storage row of one time bucket, `none` where the series has no row.
+  The engine-side evaluation asks the storage for every series separately (`Option.map (rowValue w …)`, a missing point
+  where there is no row) and aggregates the answers; the pushed-down evaluation lets the storage merge the rows of the
+  whole group (`pooled`) and asks once. -/
+
+def pooled (per : List (Option Row)) : Option Row := mergeRows (per.filterMap id)
+
+theorem present_map_optmap (per : List (Option Row)) (f : Row → Rat) :
+    present (per.map (Option.map f)) = (per.filterMap id).map f := by
+  induction per with
+  | nil => rfl
+  | cons r rs ih =>
+    cases r with
+    | none => simpa [present] using ih
+    | some r => simp only [List.map_cons, Option.map_some, present_cons_some, ih]; simp
+
+theorem foldl_merge_sum (rs : List Row) (r : Row) : (rs.foldl Row.merge r).sum = r.sum + ratSum (rs.map (·.sum)) := by
+  induction rs generalizing r with
+  | nil => simp [ratSum_nil]
+  | cons x xs ih => simp only [List.foldl_cons, List.map_cons, ratSum_cons, ih]; simp [Row.merge]; ring
+
+theorem foldl_merge_count (rs : List Row) (r : Row) : (rs.foldl Row.merge r).count = r.count + ratSum (rs.map (·.count)) := by
+  induction rs generalizing r with
+  | nil => simp [ratSum_nil]
+  | cons x xs ih => simp only [List.foldl_cons, List.map_cons, ratSum_cons, ih]; simp [Row.merge]; ring
+
+theorem foldl_merge_min (rs : List Row) (r : Row) : (rs.foldl Row.merge r).min = minOf r.min (rs.map (·.min)) := by
+  induction rs generalizing r with
+  | nil => simp [minOf]
+  | cons x xs ih => simp only [List.foldl_cons, List.map_cons, ih]; simp [Row.merge, minOf]
+
+theorem foldl_merge_max (rs : List Row) (r : Row) : (rs.foldl Row.merge r).max = maxOf r.max (rs.map (·.max)) := by
+  induction rs generalizing r with
+  | nil => simp [maxOf]
+  | cons x xs ih => simp only [List.foldl_cons, List.map_cons, ih]; simp [Row.merge, maxOf]
+
+theorem ratSum_map_mul_div (l : List Row) (f : Row → Rat) (a b : Rat) :
+    ratSum (l.map (fun r => f r * a / b)) = ratSum (l.map f) * a / b := by
+  induction l with
+  | nil => simp [ratSum_nil]
+  | cons x xs ih => simp only [List.map_cons, ratSum_cons, ih]; ring
+
+/-- the additive `what`s (sum, sumsec, count, countsec): value = g(row)·a/b with g additive under merge -/
+theorem pooled_additive (per : List (Option Row)) (f g : Row → Rat) (a b : Rat)
+    (hf : ∀ r, f r = g r * a / b)
+    (hg : ∀ (rs : List Row) (r : Row), g (rs.foldl Row.merge r) = g r + ratSum (rs.map g)) :
+    (pooled per).map f = aggSum (per.map (Option.map f)) := by
+  rw [aggSum_def, present_map_optmap]
+  unfold pooled
+  cases h : per.filterMap id with
+  | nil => simp [mergeRows]
+  | cons r rs =>
+    have hmap : rs.map f = rs.map (fun r => g r * a / b) := List.map_congr_left (fun r _ => hf r)
+    simp only [mergeRows, Option.map_some, List.map_cons, ratSum_cons, hmap, ratSum_map_mul_div, hf, hg]
+    simp only [List.cons_ne_nil, if_false]
+    congr 1; ring
+
+/-- **sum pushed down** (`sum by (G) (m)` → what = sumsec grouped by G, and `sum`/Range for the over-time rules): the
+    storage's value for the pooled rows of the group equals the engine's `sum` over the per-series storage values, at
+    every bucket, missing where no series has a row. -/
+theorem reduce_sum_sound (per : List (Option Row)) (q l : Int) :
+    (pooled per).map (rowValue .sumsec q l) = aggSum (per.map (Option.map (rowValue .sumsec q l))) ∧
+    (pooled per).map (rowValue .sum q l) = aggSum (per.map (Option.map (rowValue .sum q l))) :=
+  ⟨pooled_additive per _ (·.sum) 1 (l : Rat) (fun r => by simp [rowValue]) foldl_merge_sum,
+   pooled_additive per _ (·.sum) (q : Rat) (l : Rat) (fun r => by simp [rowValue]) foldl_merge_sum⟩
+
+/-- **count pushed down**: the pooled event count is the sum of the per-series counts (StatsHouse's `count(m)` counts
+    events; with one event per series and bucket that is PromQL's number of present series). -/
+theorem reduce_count_sound (per : List (Option Row)) (q l : Int) :
+    (pooled per).map (rowValue .countsec q l) = aggSum (per.map (Option.map (rowValue .countsec q l))) ∧
+    (pooled per).map (rowValue .count q l) = aggSum (per.map (Option.map (rowValue .count q l))) :=
+  ⟨pooled_additive per _ (·.count) 1 (l : Rat) (fun r => by simp [rowValue]) foldl_merge_count,
+   pooled_additive per _ (·.count) (q : Rat) (l : Rat) (fun r => by simp [rowValue]) foldl_merge_count⟩
+
+/-- **min / max pushed down** -/
+theorem reduce_min_sound (per : List (Option Row)) (q l : Int) :
+    (pooled per).map (rowValue .min q l) = aggMin (per.map (Option.map (rowValue .min q l))) := by
+  unfold aggMin; rw [foldl_minStep, present_map_optmap]
+  unfold pooled
+  cases h : per.filterMap id with
+  | nil => simp [mergeRows]
+  | cons r rs =>
+    have hm : rs.map (rowValue .min q l) = rs.map (·.min) := List.map_congr_left (fun r _ => by simp [rowValue])
+    simp [mergeRows, foldl_merge_min, hm, rowValue]
+
+theorem reduce_max_sound (per : List (Option Row)) (q l : Int) :
+    (pooled per).map (rowValue .max q l) = aggMax (per.map (Option.map (rowValue .max q l))) := by
+  unfold aggMax; rw [foldl_maxStep, present_map_optmap]
+  unfold pooled
+  cases h : per.filterMap id with
+  | nil => simp [mergeRows]
+  | cons r rs =>
+    have hm : rs.map (rowValue .max q l) = rs.map (·.max) := List.map_congr_left (fun r _ => by simp [rowValue])
+    simp [mergeRows, foldl_merge_max, hm, rowValue]
+
+/-- **avg pushed down, with the count carried**: the pooled average is (sum of the per-series sums) / (sum of the
+    per-series counts) — NOT the engine's avg of the per-series averages, which weighs every series equally. -/
+theorem reduce_avg_sound (per : List (Option Row)) (q : Int) :
+    (pooled per).map (rowValue .avg q 1) =
+      match aggSum (per.map (Option.map (rowValue .sumsec q 1))), aggSum (per.map (Option.map (rowValue .countsec q 1))) with
+      | some s, some c => some (s / c)
+      | _, _ => none := by
+  rw [← (reduce_sum_sound per q 1).1, ← (reduce_count_sound per q 1).1]
+  cases h : pooled per with
+  | none => simp
+  | some r => simp [rowValue]
+
+/-- avg of averages is a different number (two series, 1 and 3 events): why only the pooled form is pushed down exactly -/
+example :
+    let per := [some (Row.merge (Row.ofEvent 2) (Row.ofEvent 4)), some (Row.ofEvent 12), none]
+    (pooled per).map (rowValue .avg 1 1) = some 6 ∧ aggAvg (per.map (Option.map (rowValue .avg 1 1))) = some (15 / 2) := by
+  decide +kernel
+
+/-- non-vacuity of the reduce_* theorems: three series, one without a row -/
+example :
+    let per := [some (Row.ofEvent 5), none, some (Row.merge (Row.ofEvent (-1)) (Row.ofEvent 8))]
+    (pooled per).map (rowValue .sumsec 5 5) = some (12 / 5) ∧ (pooled per).map (rowValue .min 5 5) = some (-1) ∧
+    (pooled per).map (rowValue .count 5 5) = some 3 := by
+  decide +kernel
+
+
+/-! ### reduction rules: side conditions -/
+
+/-- rule #1 (`f_over_time(m[r])`) as a closed form: it fires iff the range does not exceed the LOD step (and equals it for
+    stddev/stdvar); the selector then carries `what = f`, `Range = r`, and stays ungrouped. -/
+theorem rule1_closed_form (w : What) (needEq : Bool) (r step : Int) :
+    evalReductionRules none [(.matrix r, 0), (.call (some w) needEq, 0)] step =
+      if r > step then none
+      else if needEq && r ≠ step then none
+      else some { rule := 1, what := some w, step := r, upto := 0 } := by
+  by_cases hr : r > step
+  · simp [evalReductionRules, rulesLoop, rulesLevel, reductionRules, applyStep, reduceMatrix, reduceOverTime, reduceAgg,
+      reduceSubquery, reduceWhat, List.range, List.range.loop, hr]
+  · by_cases hne : needEq = true ∧ ¬ r = step
+    · simp [evalReductionRules, rulesLoop, rulesLevel, reductionRules, applyStep, reduceMatrix, reduceOverTime, reduceAgg,
+        reduceSubquery, reduceWhat, List.range, List.range.loop, hr, hne]
+    · simp [evalReductionRules, rulesLoop, rulesLevel, reductionRules, applyStep, reduceMatrix, reduceOverTime, reduceAgg,
+        reduceSubquery, reduceWhat, List.range, List.range.loop, hr, hne]
+
+example : evalReductionRules none [(.matrix 5, 0), (.call (some .sum) false, 0)] 5
+    = some { rule := 1, what := some .sum, step := 5, upto := 0 } := by decide +kernel
+example : evalReductionRules none [(.matrix 10, 0), (.call (some .sum) false, 0)] 5 = none := by decide +kernel
+/-- rule #2 absorbs the aggregation above an over-time call; rule #0 an aggregation alone; a mismatching pair stops at #1 -/
+example : evalReductionRules none [(.matrix 5, 0), (.call (some .sum) false, 0), (.agg (some .sumsec) false [1], 1)] 5
+    = some { rule := 2, what := some .sum, step := 5, grouped := true, groupBy := [1], upto := 1 } := by decide +kernel
+example : evalReductionRules none [(.matrix 5, 0), (.call (some .sum) false, 0), (.agg (some .min) false [1], 1)] 5
+    = some { rule := 1, what := some .sum, step := 5, upto := 0 } := by decide +kernel
+/-- an explicit `__what__` takes part in the matching (fixed code): max(m{__what__="sum"}) is not pushed down -/
+example : evalReductionRules (some .sum) [(.agg (some .max) false [], 0)] 1 = none := by decide +kernel
+example : evalReductionRules (some .sum) [(.agg (some .sumsec) false [], 0)] 1
+    = some { rule := 0, what := some .sum, grouped := true, upto := 0 } := by decide +kernel
+
+
+/-! ### the pinned tree drops the rule's `what`: a concrete storage where the property fails -/
+
+def exStore : Store := ⟨[[(1, 1), (2, 1), (3, 1)], [(1, 1), (2, 2), (3, 1)]], [⟨0, 100, 2⟩, ⟨1, 100, 10⟩, ⟨0, 101, 4⟩]⟩
+def exTS : TS := ⟨[99, 100, 101], 1, 1, 3, 1, 1⟩
+
+/-- `sum(m)`: the engine-side evaluation (selector wrapped in `+ 0`) gives 12 and 4; the fixed tree pushes it down with
+    the same result; the pinned tree asks the storage for `avg` of the group and returns 6 and 4;
+    `count(m)` on the pinned tree is also 6 (the average!), the fixed tree counts 2 and 1. -/
+theorem repo_reduction_violates :
+    exec Cfg.fixed exStore exTS none [.brk, .agg .sum false []] = [⟨[], [some 12, some 4]⟩] ∧
+    exec Cfg.fixed exStore exTS none [.agg .sum false []] = [⟨[], [some 12, some 4]⟩] ∧
+    exec Cfg.repo exStore exTS none [.agg .sum false []] = [⟨[], [some 6, some 4]⟩] ∧
+    exec Cfg.repo exStore exTS none [.agg .count false []] = [⟨[], [some 6, some 4]⟩] ∧
+    exec Cfg.fixed exStore exTS none [.agg .count false []] = [⟨[], [some 2, some 1]⟩] := by
+  decide +kernel
+
+
+
+theorem searchLeft_le (t : List Int) (v : List Val) (wd : Wnd) (r l n : Nat) : (searchLeft t v wd r l n).1 ≤ l := by
+  induction l generalizing n with
+  | zero => simp [searchLeft]
+  | succ l ih =>
+    unfold searchLeft
+    split
+    · simp
+    · exact Nat.le_succ_of_le (ih _)
+
+theorem finishMove_shape (t : List Int) (wd wd' : Wnd) (r l n : Nat) (f : Bool) (h : finishMove t wd r l n f = some wd') :
+    wd'.r = r ∧ wd'.l = l ∧ wd'.w = wd.w ∧ wd'.strict = wd.strict := by
+  unfold finishMove at h
+  split at h
+  · split at h
+    · cases h; simp
+    · cases h
+  · cases h; simp
+
+/-- **cursor shape, every move on every grid** (what the repo's TestWindow* samples): the right edge moves left by exactly
+    one, the left edge never passes it and never moves right, width and strictness are untouched. -/
+theorem moveOneLeft_shape (t : List Int) (v : List Val) (wd wd' : Wnd) (h : moveOneLeft t v wd = some wd') :
+    wd'.r = wd.r - 1 ∧ wd'.l ≤ wd'.r ∧ wd'.l ≤ wd.l ∧ wd'.w = wd.w ∧ wd'.strict = wd.strict := by
+  unfold moveOneLeft at h
+  split at h
+  · cases h
+  · have hl0 : leftStart wd (wd.r - 1) ≤ wd.r - 1 := by unfold leftStart; split <;> omega
+    have hl1 : leftStart wd (wd.r - 1) ≤ wd.l := by unfold leftStart; split <;> omega
+    obtain ⟨h1, h2, h3, h4⟩ := finishMove_shape _ _ _ _ _ _ _ h
+    refine ⟨h1, ?_, ?_, h3, h4⟩
+    · rw [h1, h2]
+      split
+      · exact hl0
+      · exact Nat.le_trans (searchLeft_le _ _ _ _ _ _) hl0
+    · rw [h2]
+      split
+      · exact hl1
+      · exact Nat.le_trans (searchLeft_le _ _ _ _ _ _) hl1
+
+example : moveOneLeft [0, 5, 10] [some 1, none, some 3] (newWindow 3 10 5 false)
+    = some { w := 10, s := 5, l := 1, r := 2, n := 1, strict := false, done := false } := by decide +kernel
+
+/-
+  Full statement not proved (over_time_is_definition): on a uniform grid t[i] = t0 + i·s with range w = k·s, k ≥ 1, for
+  every r ≥ k the cursor stops at l = r − k + 1 with n = number of present points of v[l..r], hence
+  `overTime t w s f v` at r = f (present points of v[r−k+1 .. r]) and missing for r < k (index 0 is a guard point).
+  The cursor is modelled move for move and compared with the real one on random (also non-uniform) grids; the harness'
+  def-*-over-time oracle recomputes every window from this definition.
+-/
+
+/-- over-time functions on a concrete series (uniform 5 s grid): sum over 10 s = the two points of the window, missing
+    points skipped; count is 0 (not missing) on an empty window; a strict function sees an empty window when the range is
+    narrower than the step, a non-strict one stretches to one point. -/
+example : overTime [0, 5, 10, 15, 20] 10 5 .sum [some 1, some 2, none, some 4, some 8] = [none, none, some 2, some 4, some 12] := by
+  decide +kernel
+example : overTime [0, 5, 10, 15, 20] 10 5 .count [some 1, none, none, some 4, some 8] = [none, none, some 0, some 1, some 2] := by
+  decide +kernel
+example : overTime [0, 5, 10, 15, 20] 5 5 .max [some 1, some 2, none, some 4, some 8] = [none, some 2, none, some 4, some 8] := by
+  decide +kernel
+example : overTime [0, 5, 10, 15, 20] 3 5 .sum [some 1, some 2, none, some 4, some 8] = [none, none, none, none, none] := by
+  decide +kernel
+example : overTime [0, 5, 10, 15, 20] 3 5 .avg [some 1, some 2, none, some 4, some 8] = [none, some 2, none, some 4, some 8] := by
+  decide +kernel
 
 end SH.Props.C27
